@@ -476,10 +476,19 @@ def random_sig(rng, pool, maxn=4, star_names=(('args', 'kwargs'), ('va', 'vk')),
             ua = ('P', an) if rng.random() < 0.7 else E
         ps.append(mk_param(nm, kind, de, an, ua))
     va, vk = rng.choice(star_names)
+
+    def star_meta():
+        # star parameters carry annotations too (conciliation applies to them as well)
+        if meta and rng.random() < 0.35:
+            an = rng.choice([11, 12])
+            return an, (('P', an) if rng.random() < 0.7 else E)
+        return None, E
     if rng.random() < 0.5:
-        ps = ps[:npos] + [mk_param(id_of_name(va), 'VP')] + ps[npos:]
+        an, ua = star_meta()
+        ps = ps[:npos] + [mk_param(id_of_name(va), 'VP', None, an, ua)] + ps[npos:]
     if rng.random() < 0.5:
-        ps = ps + [mk_param(id_of_name(vk), 'VK')]
+        an, ua = star_meta()
+        ps = ps + [mk_param(id_of_name(vk), 'VK', None, an, ua)]
     if len({p[0] for p in ps}) != len(ps):
         return random_sig(rng, pool, maxn, star_names, meta)
     return ps
